@@ -11,6 +11,14 @@ def one(job):
     tmp = tempfile.mkdtemp(prefix="cross-")
     try:
         shutil.copytree("/repo/src", os.path.join(tmp, "src"))
+        try:
+            rbase = json.load(open(os.path.join(HERE, "benign", r, "refactor.json"))).get("base")
+        except Exception:
+            rbase = None
+        if rbase:
+            a0 = subprocess.run(["patch", "-p1", "-s", "--no-backup-if-mismatch", "-i", os.path.join(HERE, rbase)], cwd=tmp, capture_output=True, text=True)
+            if a0.returncode != 0:
+                return r, sid, "refactoring base does not apply"
         a = subprocess.run(["patch", "-p1", "-s", "--no-backup-if-mismatch", "-i", os.path.join(HERE, "benign", r, "refactor.diff")], cwd=tmp, capture_output=True, text=True)
         if a.returncode != 0:
             return r, sid, "refactoring does not apply"
